@@ -53,6 +53,7 @@ type FuncContract struct {
 	Assumes       []*Clause // assumed at call sites, not checked against the body (listed as assumptions)
 	Invariants    []*Clause
 	Steps         []*Clause // relation between one loop-head state (prev(x)) and the next
+	Exhaustive    []*Clause // structural: the loop is left only through its head (no break / return / goto out of the body)
 	Effects       []*Clause // crash invariants
 	OnSpawn       []*Clause // ensures assumed by the spawner at `go f()`
 	Modifies      []string
@@ -619,8 +620,8 @@ func (cs *ContractSet) parseFile(path, pkgPath string) error {
 			case "loop":
 				// loop N invariant label: expr
 				fs := strings.SplitN(rest, " ", 3)
-				if len(fs) < 3 || (fs[1] != "invariant" && fs[1] != "step") {
-					return errf("expected: loop N invariant|step label: expr")
+				if len(fs) < 3 || (fs[1] != "invariant" && fs[1] != "step" && fs[1] != "exhaustive") {
+					return errf("expected: loop N invariant|step|exhaustive label: expr")
 				}
 				var n int
 				if _, err := fmt.Sscanf(fs[0], "%d", &n); err != nil {
@@ -631,7 +632,12 @@ func (cs *ContractSet) parseFile(path, pkgPath string) error {
 					return err
 				}
 				c.Loop = n
-				if fs[1] == "step" {
+				if fs[1] == "exhaustive" {
+					// structural: the loop is left only through its own condition / exhausted range (no break, return or goto out of
+					// the body); the expression is not used
+					c.Kind = "exhaustive"
+					cur.Exhaustive = append(cur.Exhaustive, c)
+				} else if fs[1] == "step" {
 					c.Kind = "step"
 					cur.Steps = append(cur.Steps, c)
 				} else {
